@@ -61,7 +61,8 @@ def case_to_coq(c):
     pkeys = C.cq_list(["(%s, %s)" % (C.cq_str(p[0]), C.cq_str(p[1])) for p in c["pkeys"]])
     ctl = c["obs"].get("ctl") or {"order": [], "steps": []}
     ctl_s = "(%s%%nat, %s)" % (C.cq_list([str(i) for i in ctl["order"]]),
-                              C.cq_list(["(%s, %s)" % (cq_strs(s["ld"]), cq_strs(s["fl"])) for s in ctl["steps"]]))
+                              C.cq_list(["(%d, %s, %s, %s, %s, %s)" % (s.get("m", 0), cq_strs(s["ld"]), cq_strs(s["fl"]), C.cq_str(s.get("pa", "")),
+                                                                   cq_strs(s.get("pp")), cq_strs(s.get("rj"))) for s in ctl["steps"]]))
     return "c19_case %d %s %s %s %s\n    %s\n    %s\n    %s" % (
         c["id"], C.cq_bool(c.get("fx", False)), C.cq_bool(c["enabled"]), cq_strs(c["wkeys"]), pkeys,
         C.cq_list([cq_event(op) for op in c["hist"]]), C.cq_list(runs), ctl_s)
@@ -99,6 +100,9 @@ BITS = [
     (16, {"kind": "projection", "class": "usersig_files"},
      "controller projection: after an operation the user-signature index / files are not exactly the signature sets in force "
      "for the current objects (syncAppProtectUserSig -> processAppProtectUserSigChange -> RefreshAppProtectUserSigs)"),
+    (32, {"kind": "report", "class": "controller_policy_flip_unprocessed"},
+     "controller path: a policy changed usability during a signature operation / the clean-up of an unwatched namespace but no "
+     "processed change carried it (its dependent Ingress was not regenerated) or no Rejected event was recorded for it"),
     (8, {"kind": "order", "class": "final_answers_differ"},
      "two orders of the same operations ending in the same object set give different answers"),
 ]
@@ -312,7 +316,9 @@ def replay(run, path):
             print("  controller path (WAF operations in generated order): sets listed by index.conf / files in the folder")
             for j, stp in zip(ctl["order"], ctl["steps"]):
                 op = c["hist"][j]
-                print("    op %d %s %s/%s%s -> index=%s files=%s" % (j, ["APPolicy", "APLogConf", "APUserSig"][op["k"]], op["ns"], op["name"],
-                                                                      " DELETE" if op.get("del") else (" (re-created)" if op.get("recreate") else ""),
-                                                                      stp["ld"], stp["fl"]))
+                if stp.get("m") == 1:
+                    continue
+                print("    op %d %s %s/%s%s -> index=%s files=%s policies=%s processed=%s rejected=%s" % (j, ["APPolicy", "APLogConf", "APUserSig"][op["k"]], op["ns"], op["name"],
+                                                                      (" UNWATCH-NAMESPACE (group %d complete)" % op["unwatch"]) if op.get("unwatch") else " DELETE" if op.get("del") else (" (re-created)" if op.get("recreate") else ""),
+                                                                      stp["ld"], stp["fl"], stp.get("pa"), stp.get("pp"), stp.get("rj")))
     judge(run, cases, res)
